@@ -720,46 +720,67 @@ def _code_names_and_constants(code) -> Tuple[List[str], List[str]]:
     return sorted({plain(n) for n in names}), sorted(constants)
 
 
-def _code_instructions(code, top: bool = True) -> Optional[List[Any]]:
-    """The instructions of a code object and of the code objects nested in it (byte code along
-    with the constants and names it indexes, in order) - but only when they do not depend on
-    where the code was compiled (no variables of an enclosing function, no class-private
-    names). Otherwise `None`."""
-    if top and (
-        len(code.co_freevars) > 0
-        or any(n.startswith("__") and not n.endswith("__") for n in code.co_names)
-    ):
-        return None
+def _code_instructions(code) -> List[Any]:
+    """The instructions of a code object and of the code objects nested in it: byte code along
+    with the constants and names it indexes, in order."""
     result: List[Any] = [
         code.co_code,
         code.co_names,
+        code.co_freevars,
         [repr(c) for c in code.co_consts if not hasattr(c, "co_code")],
     ]
     for c in code.co_consts:
         if hasattr(c, "co_code"):
-            result.append(_code_instructions(c, False))
+            result.append(_code_instructions(c))
     return result
 
 
+def _code_symbols(code) -> List[Any]:
+    """How a code object (and the code objects nested in it) resolved its variables: as
+    locals, as cells handed to nested functions or as variables of an enclosing function."""
+    result: List[Any] = [code.co_varnames, code.co_cellvars, code.co_freevars]
+    for c in code.co_consts:
+        if hasattr(c, "co_code"):
+            result.append(_code_symbols(c))
+    return result
+
+
+def _compile_lambda_like(lda: ast.Lambda, code) -> Optional[Any]:
+    """Compile the lambda found in the source the way the callable was compiled: inside a
+    function that owns the variables the callable takes from its enclosing function."""
+    wrapper = ast.parse(f"def _f({', '.join(code.co_freevars)}):\n    return None")
+    wrapper.body[0].body[0].value = copy.deepcopy(lda)  # type: ignore
+    module_code = compile(ast.fix_missing_locations(wrapper), "<lambda>", "exec")
+    f_code = [c for c in module_code.co_consts if hasattr(c, "co_code")]
+    if len(f_code) != 1:
+        return None
+    found = [c for c in f_code[0].co_consts if hasattr(c, "co_code")]
+    return found[0] if len(found) == 1 else None
+
+
 def _lambda_can_be(lda: ast.Lambda, ast_source: Callable) -> bool:
-    """Could the lambda found in the source be the callable we were given? They must at least
-    refer to the same names and use the same constants."""
+    """Could the lambda found in the source be the callable we were given? They must refer to
+    the same names, use the same constants and - unless class-private names make the byte code
+    depend on the class it was written in - have the same instructions."""
     code = getattr(ast_source, "__code__", None)
     if code is None:
         return True
     try:
-        module_code = compile(
-            ast.fix_missing_locations(ast.Expression(body=copy.deepcopy(lda))), "<lambda>", "eval"
-        )
+        found = _compile_lambda_like(lda, code)
     except Exception:
         return True
-    found = [c for c in module_code.co_consts if hasattr(c, "co_code")]
-    if len(found) != 1:
+    if found is None:
         return True
-    if _code_names_and_constants(found[0]) != _code_names_and_constants(code):
+    if _code_names_and_constants(found) != _code_names_and_constants(code):
         return False
-    i_found, i_code = _code_instructions(found[0]), _code_instructions(code)
-    return i_found is None or i_code is None or i_found == i_code
+    names, _ = _code_names_and_constants(code)
+    if any(n.startswith("__") and not n.endswith("__") for n in names):
+        return True
+    # The byte code can only be compared if both were compiled with the same view of the
+    # surrounding scopes (we only know the variables the callable itself takes from them).
+    if _code_symbols(found) != _code_symbols(code):
+        return True
+    return _code_instructions(found) == _code_instructions(code)
 
 
 def _parse_source_for_lambda(
